@@ -34,6 +34,8 @@ ASSUMPTIONS = [
 
 def cfg_args(cfg):
     a = ["--mapping-quality", cfg["mapq"], "--read-group-field", cfg["rg_field"]]
+    if cfg.get("error_rate") is not None:
+        a += ["--base-error-rate", cfg["error_rate"]]
     if cfg["keep_dup"]:
         a.append("--keep-duplicate-reads")
     if cfg["keep_qcfail"]:
@@ -146,8 +148,15 @@ def check_dataset(ctx, case):
             ctx.count("sample_matrices_compared", n_matrices)
 
         # ---- encoded reads and counts through the program object
-        args = ["--bam"] + paths["bams"] + ["--targets", paths["bed"], "--variants", paths["vcf"], "--reference", paths["fasta"],
-                                            "--ploidy", 2, "--mcmc-steps", 60, "--mcmc-burn", 20, "--mcmc-chains", 1, "--report", "SNVDP"] + cfg_args(cfg)
+        bam_arg = list(paths["bams"])
+        if cfg.get("bam_form") == "listfile":
+            lf = os.path.join(wd, "bams.txt")
+            with open(lf, "w") as fh:
+                fh.write("".join(p_ + "\n" for p_ in paths["bams"]))
+            bam_arg = [lf]
+        args = ["--bam"] + bam_arg + ["--targets", paths["bed"], "--variants", paths["vcf"], "--reference", paths["fasta"],
+                                      "--ploidy", 2, "--mcmc-steps", 60, "--mcmc-burn", 20, "--mcmc-chains", 1, "--report", "SNVDP"] + cfg_args(cfg)
+        err_rate = 0.0024 if cfg.get("error_rate") is None else cfg["error_rate"]
         with guard(problems, "encode_sample_reads"):
             prog = CLI.make_program("assemble", args)
             names = sample_names(spec, field)
@@ -194,11 +203,18 @@ def check_dataset(ctx, case):
                         for d, c in zip(dists, counts):
                             call = []
                             for j in range(len(snvs)):
-                                v = d[j][: len(snvs[j]["alleles"])]
+                                n_a = len(snvs[j]["alleles"])
+                                v = d[j][:n_a]
                                 if np.all(np.isnan(v)):
                                     call.append(-1)
                                 else:
-                                    call.append(int(np.nanargmax(v)))
+                                    a_ = int(np.nanargmax(v))
+                                    call.append(a_)
+                                    # documented encoding: called allele 1-e, every other allele e/3, non-alleles 0
+                                    exp_v = [(1 - err_rate) if i == a_ else err_rate / 3 for i in range(n_a)]
+                                    if any(abs(float(x) - y) > 1e-12 for x, y in zip(v, exp_v)) or np.any(d[j][n_a:] != 0):
+                                        problems.append(Problem("encode:probabilities", "locus %s sample %s SNV %d: allele probabilities %s, expected %s for base error rate %r (non-alleles 0)" % (locus_spec["name"], name, j, d[j].tolist(), exp_v, err_rate)))
+                                        return problems
                             back[tuple(call)] += int(c)
                         if back != Counter(calls):
                             problems.append(Problem("encode:dedup_content", "locus %s sample %s: de-duplicated distributions do not re-expand to the encoded matrix" % (locus_spec["name"], name)))
@@ -214,6 +230,20 @@ def check_dataset(ctx, case):
             header, samples, recs = CLI.parse_records(out)
             if len(recs) != len(spec["loci"]):
                 problems.append(Problem("assemble:record_count", "%d records for %d loci" % (len(recs), len(spec["loci"]))))
+                return problems
+            # --region / --region-id give the same record as the corresponding --targets line
+            li = cfg.get("region_locus", 0) % len(spec["loci"])
+            L = spec["loci"][li]
+            r_args = [a for a in args]
+            ti = r_args.index("--targets")
+            r_args[ti:ti + 2] = ["--region", "%s:%d-%d" % (L["contig"], L["start"], L["stop"]), "--region-id", L["name"]]
+            out_r, err_r = CLI.run_inprocess("assemble", r_args)
+            if err_r is not None:
+                problems.append(Problem("assemble:region:raised:%s" % type(err_r).__name__, "assemble --region %s:%d-%d failed: %s" % (L["contig"], L["start"], L["stop"], CLI.describe(err_r))))
+                return problems
+            _, _, recs_r = CLI.parse_records(out_r)
+            if len(recs_r) != 1 or recs_r[0]["line"] != recs[li]["line"]:
+                problems.append(Problem("assemble:region_vs_targets", "--region %s:%d-%d gives %s but the --targets run gives %s" % (L["contig"], L["start"], L["stop"], [r_["line"][:300] for r_ in recs_r], recs[li]["line"][:300])))
                 return problems
             for rec in recs:
                 for name in samples:
@@ -304,7 +334,8 @@ def config(draw, spec):
     m = draw(st.sampled_from(mapqs))
     mapq = max(0, m + draw(st.sampled_from([0, 0, 1, -1])))
     return {"mapq": mapq, "keep_dup": draw(st.booleans()), "keep_qcfail": draw(st.booleans()), "keep_supp": draw(st.booleans()),
-            "rg_field": draw(st.sampled_from(["SM", "SM", "ID"]))}
+            "rg_field": draw(st.sampled_from(["SM", "SM", "ID"])), "error_rate": draw(st.sampled_from([None, None, 0.01, 0.05])),
+            "bam_form": draw(st.sampled_from(["paths", "paths", "listfile"])), "region_locus": draw(st.integers(0, 5))}
 
 
 @st.composite
